@@ -2,20 +2,28 @@ CONFIG = {
     "level": "proof",
     "passes": [
         {"name": "money", "pkg": "c20", "bin": "c20", "driver": "drv_c20", "reset_prefix": "reset", "timeout": 1500},
+        # stress observation, judged by the property oracle only (the model answers `done`); a failing `resetconc`
+        # line replays through the first pass (the op is understood in both modes)
+        {"name": "concurrent", "pkg": "c20", "bin": "c20", "driver": "drv_c20", "reset_prefix": "reset",
+         "args": ["-mode", "concurrent"], "timeout": 600},
     ],
     "trusted_base": [
+        "per-call descriptor design of cache.passwdUpdateMoney (every call opens .PASSWDS itself, so Seek+Write of one call cannot be interleaved with another call's): NOT proved; observed by the `concurrent` pass (G goroutines x N SetUMoney/DeUMoney on pairwise different slots incl. 1 and MAX_USERS, then every byte of .PASSWDS and SHM compared with the expected image)",
+        "the slot a registration is given (free-slot search in the SHM user hash) is observed, not modelled: `newuser` lines carry the slot seen through cache.SearchUserRaw after ptt.SetupNewUser",
         "os.OpenFile/Seek/Write on .PASSWDS and encoding/binary little-endian: modelled as a byte-list write (a seek past the end leaves zero bytes); agreement checked on every run, including short, torn and missing files",
         "SysV shared memory is an array of int32 in the model; the harness sets Shm.Shm.Money directly at each reset",
         "go/types Sizes(gc, amd64) for the UserecRaw layout; cross-checked against unsafe.Offsetof/Sizeof of the compiled code by the `layout` op",
     ],
     "modelled": ["cache.SetUMoney", "cache.DeUMoney", "cache.MoneyOf", "cache.passwdUpdateMoney", "ptttype.UID.ToUIDInStore",
                  "ptt.passwdSyncQuery (through ptt.GetUser)", "ptt.passwdSyncUpdate (through ptt.SetUserPerm)",
-                 "cmbbs.PasswdQuery", "cmbbs.PasswdUpdate", "encoding/binary bool normalisation of UserecRaw"],
+                 "cmbbs.PasswdQuery", "cmbbs.PasswdUpdate", "ptt.SetupNewUser (tail after cache.SetUserID)", "encoding/binary bool normalisation of UserecRaw"],
     "assumptions": [
         "the theorems are stated for a .PASSWDS of exactly MAX_USERS records and an SHM money array of MAX_USERS entries (other files are compared with the model, not judged)",
         "no-overflow hypothesis of the property: amounts are int32, a debit is not -2^31 (its negation does not exist in int32: DeUMoney then stores balance-2^31) and the stored sum is an int32",
         "ptt.GetUser reaches passwdSyncQuery through the SHM user hash (cache.SearchUserRaw): the harness loads the hash once with one name per slot and checks every lookup at start-up; the hash itself is C04's subject",
         "a caller's UserecRaw is modelled by its 512-byte serialisation",
+        "the proofs are about SEQUENTIAL histories; the concurrent pass is a stress observation, not a proof",
+        "registration: only the money/record tail of ptt.SetupNewUser (SetUMoney, passwdSyncUpdate, in the order regenerated from the source) is modelled; id lookup, slot search and locking are C03/C15",
         "single writer: concurrent SetUMoney/DeUMoney on one slot are outside this property",
         "MoneyOf on an invalid slot panics (index out of range); it writes nothing and is recorded, not judged",
     ],
